@@ -25,18 +25,19 @@ RULE = (
     "get_terminal_name_version, get_cell_size via query, Renderable.draw(echo_input=False) still and animated} "
     "from random initial attribute sets (ICANON / ECHO / ISIG / IEXTEN / IXON / ICRNL / OPOST flags, VMIN, VTIME) "
     "on a real pty; outcomes: normal, time-out, predicate raising, and an exception (KeyboardInterrupt / OSError) "
-    "raised before or after the k-th tcgetattr / tcsetattr / tcdrain / write / select / read for ALL k (the "
-    "restoring call itself, classified by stack walk at injection time, is excluded), plus a real SIGINT delivered "
+    "raised before or after the k-th tcgetattr / tcsetattr / tcdrain / write / select / read -- and, for draw(), "
+    "every write / flush of the output stream, those of its clean-up included -- for ALL k (only the restoring "
+    "tcsetattr itself, classified by stack walk at injection time, is excluded), plus a real SIGINT delivered "
     "while the main thread is parked in select; distinct = distinct (operation, initial-attribute class, fault "
     "position, exception kind) tuples"
 )
 ASSUMPTIONS = [
     "the names termios / os / select in the namespaces of term_image.utils and term_image.renderable._renderable "
     "are replaced by counting proxies that delegate to the real calls (DESIGN.md 2.3)",
-    "a fault aimed at a call that turns out to be the restoring call (a frame of query_terminal / read_tty / "
+    "a fault aimed at the restoring call (a tcsetattr issued by a frame of query_terminal / read_tty / "
     "Renderable.draw executing in a finally body) is skipped and counted",
-    "a signal landing between entering a finally block and the restoring call cannot be excluded by any "
-    "try/finally in Python and is not generated",
+    "a signal landing between entering a finally block and its first call cannot be excluded by any try/finally "
+    "in Python and is not generated; one landing at a call made inside the clean-up before the restoring call can",
 ]
 MIN_EVENTS = {"fault runs": {"quick": 5000, "thorough": 1000000}, "attribute comparisons": {"quick": 5000, "thorough": 1000000}}
 SHARDS = 16
@@ -100,7 +101,9 @@ class Sys:
         self.calls.append((name, cu))
         f = self.fault
         hit = f is not None and f[0] == idx and self.fired is None
-        if hit and cu:
+        # only the restoring call itself is out of bounds; the other calls of a clean-up
+        # (draw() writes a newline and shows the cursor there) are boundaries like any other
+        if hit and cu and name == "termios.tcsetattr":
             self.skipped = True
             hit = False
             self.fault = None
@@ -135,6 +138,23 @@ class ModProxy:
         return real
 
 
+class StreamProxy:
+    """sys.stdout during a draw(): every write / flush is a system-call boundary."""
+
+    def __init__(self, real, sysobj):
+        self._real = real
+        self._sys = sysobj
+
+    def write(self, data):
+        return self._sys.call("stdout.write", self._real.write, data)
+
+    def flush(self):
+        return self._sys.call("stdout.flush", self._real.flush)
+
+    def __getattr__(self, name):
+        return getattr(self._real, name)
+
+
 class patched:
     def __init__(self, sysobj):
         self.s = sysobj
@@ -151,6 +171,8 @@ class patched:
         s = self.s
         utils.select = lambda *a, **k: s.call("select", real_select, *a, **k)
         rmod.termios = tp
+        self.stdout = sys.stdout
+        sys.stdout = StreamProxy(sys.stdout, self.s)
         return self
 
     def __exit__(self, *a):
@@ -158,6 +180,7 @@ class patched:
         from term_image.renderable import _renderable as rmod
 
         utils.termios, utils.os, utils.select, rmod.termios = self.saved
+        sys.stdout = self.stdout
 
 
 # ----------------------------------------------------------------------------- operations
